@@ -196,11 +196,15 @@ let run_case (t : toks) : string =
     show_dec (gen_decode_async_top !schema p ty (bytes_of_hex (next t)))
   | "own" ->
     (* ownership-instrumented templates (Own.v): outcome, number of values that are never dropped, and how many
-       of them visibly hold heap memory / an input reference.  Plain templates only (the sync decoder of a keep
-       build is a different template: the caller does not ask for it). *)
+       of them visibly hold heap memory / an input reference. *)
     let mode = next t in
     let is_async = String.length mode >= 5 && String.sub mode 0 5 = "async" in
-    let (r, leaked) = own_decode_top (if is_async then MAsync else MSync) !schema p ty (bytes_of_hex (next t)) in
+    let bytes = bytes_of_hex (next t) in
+    (* retention is only emitted for the sync decoders of a keep build (GenKeep templates); everything else is an
+       instance of the plain templates *)
+    let (r, leaked) =
+      if keep_cfg cfg && not is_async then own_decode_keep_top !schema p ty bytes
+      else own_decode_top (if is_async then MAsync else MSync) !schema p ty bytes in
     let k = (match r with Ok _ -> "ok" | Err e -> "err " ^ err_class e | Panic s -> "panic " ^ string_of_site s) in
     k ^ " LEAK " ^ string_of_int (List.length leaked) ^ " HEAP " ^ string_of_int (List.length (List.filter heap_val leaked))
   | s -> failwith ("unknown op " ^ s)
